@@ -64,6 +64,12 @@ fn check_location(ctx: &mut Ctx, text: &str, l: &Location, what: &str, replay: &
         return false;
     }
     if l.line() != line || l.column() != col {
+        // recorded finding F55: for a scan error raised at the very end of the input the parser's mark carries the
+        // character index of the end but a line number one past the last line
+        if what.starts_with("error") && off == t.chars().count() && l.line() > line {
+            ctx.fail("F55:scan-error-mark-at-end-of-input", format!("{what}: line {} column {} reported for the end of the input (character offset {off} is line {line} column {col})", l.line(), l.column()), replay.clone());
+            return false;
+        }
         ctx.fail("line-column-mismatch", format!("{what}: line {} column {} reported, character offset {off} is line {line} column {col}", l.line(), l.column()), replay.clone());
         return false;
     }
@@ -266,6 +272,8 @@ fn derive_ty(n: &Node, counter: &mut usize, target: usize, bad: &Ty) -> Option<T
 
 fn collect_leaf_texts(n: &Node, out: &mut Vec<String>) {
     match n {
+        // a scalar tagged !!null is null whatever its text
+        Node::Scalar { tag: Some(t), .. } if t == "!!null" => out.push("~".into()),
         Node::Scalar { text, .. } => out.push(text.clone()),
         Node::Seq { items, .. } => items.iter().for_each(|i| collect_leaf_texts(i, out)),
         Node::Map { entries, .. } => entries.iter().for_each(|(_, v)| collect_leaf_texts(v, out)),
@@ -394,7 +402,10 @@ fn one_doc(ctx: &mut Ctx, text: &str, node: Option<&Node>, rng: &mut Rng) {
     let mut all_leaves = Vec::new();
     match &r {
         Ok(v) => {
-            let mut w = Walk { text, has_alias, has_merge: text.contains("<<"), replay: &replay, leaves: Vec::new() };
+            // `? {~ : v} : w` is the crate's explicit-empty-key notation: the value delivered for the entry is the
+            // one written inside the key, so use site and definition site differ without any alias (treated like a merge)
+            let empty_key_form = node.as_ref().and_then(|n| docgen::expand(n)).map(|e| docgen::has_explicit_empty_key(&e)).unwrap_or_else(|| text.contains("? {"));
+            let mut w = Walk { text, has_alias, has_merge: text.contains("<<") || empty_key_form, replay: &replay, leaves: Vec::new() };
             walk(ctx, &mut w, v, false);
             all_leaves = w.leaves;
             ctx.count("doc_ok");
